@@ -167,19 +167,20 @@ PairVar(w, e) ==
 \* "at block size 1 equals the unbiased weighted-variance formula over the number of blocks minus one"
 B1Formula(w, e) == Err2(w, e, 1) = RDiv(PairVar(w, e), R(Len(w) - 1))
 
+\* In the next three predicates errs stands for Errs2(w, e) (the theorem module caches it per series).
 \* "invariant under a common rescaling of the weights"
-ScaleInvariant(w, e, c) ==
+ScaleInvariant(w, e, c, errs) ==
   /\ WMean(Scale(w, c), e) = WMean(w, e)
-  /\ Errs2(Scale(w, c), e) = Errs2(w, e)
+  /\ Errs2(Scale(w, c), e) = errs
 \* "shift with / ignore an added constant"
-ShiftCovariant(w, e, c) ==
+ShiftCovariant(w, e, c, errs) ==
   /\ WMean(w, Shift(e, c)) = RAdd(WMean(w, e), R(c))
-  /\ Errs2(w, Shift(e, c)) = Errs2(w, e)
+  /\ Errs2(w, Shift(e, c)) = errs
 \* "constant data never produce a non-zero error"
-ConstNoError(w, e) == IsConst(e) =>
+ConstNoError(w, e, errs) == IsConst(e) =>
   /\ WMean(w, e) = R(e[1])
-  /\ \A k \in DOMAIN Errs2(w, e) : Errs2(w, e)[k] = <<0, 1>>
-  /\ PlateauOf(Errs2(w, e)) \in {None, <<0, 1>>}
+  /\ \A k \in DOMAIN errs : errs[k] = <<0, 1>>
+  /\ PlateauOf(errs) \in {None, <<0, 1>>}
 
 \* median by its textbook definition: sort, take the middle value (odd length) or the mean of the
 \* middle two (even length).  SortSeq is TLC's built-in sort.
